@@ -157,4 +157,375 @@ theorem decodeField_append (X : Ext) (tag : Bytes) (pres : Pres) (shape : Shape)
       | error e => rfl
       | ok p => rfl
 
+
+theorem decodeField_at (X : Ext) {tag : Bytes} {pres : Pres} {shape : Shape} {s : Sch} {Rf : Flds}
+    {slot : FVal} {B : List FVal} {evs : List Ev} {acc' : List FVal} {r : List Ev}
+    (P : Flds) (A : List FVal) (hnot : tag ∉ P.tags) (hl : A.length = P.length)
+    (hhead : decodeField X (.cons tag pres shape s Rf) tag evs (slot :: B) = .ok (acc', r)) :
+    decodeField X (P.append (.cons tag pres shape s Rf)) tag evs (A ++ slot :: B) = .ok (A ++ acc', r) := by
+  rw [decodeField_append X tag pres shape s Rf slot B evs P A hnot hl, hhead]
+
+theorem decodeField_single_ok (X : Ext) {tag : Bytes} {pres : Pres} {s : Sch} {Rf : Flds} {B : List FVal}
+    {evs r : List Ev} {v : Val} (h : decode X s evs = .ok (v, r)) :
+    decodeField X (.cons tag pres .single s Rf) tag evs (.absent :: B) = .ok (.one v :: B, r) := by
+  simp [decodeField, FVal.isAbsent, h]
+
+theorem decodeField_flat_ok (X : Ext) {tag : Bytes} {pres : Pres} {s : Sch} {Rf : Flds} {slot : FVal} {B : List FVal}
+    {evs r : List Ev} {v : Val} (h : decode X s evs = .ok (v, r)) :
+    decodeField X (.cons tag pres .flat s Rf) tag evs (slot :: B) = .ok (slot.push v :: B, r) := by
+  simp [decodeField, h]
+
+theorem decodeField_wrapped_ok (X : Ext) {tag m : Bytes} {pres : Pres} {s : Sch} {Rf : Flds} {B : List FVal}
+    {evs r : List Ev} {l : List Val}
+    (h : forEach (listItem (fun evs => decode X s evs) m) (evs.length + 1) evs [] = .ok (l, r)) :
+    decodeField X (.cons tag pres (.wrapped m) s Rf) tag evs (.absent :: B) = .ok (.many l :: B, r) := by
+  simp [decodeField, FVal.isAbsent, h]
+
+/-! ### lists -/
+
+theorem flatMap_elem_length (tag : Bytes) (s : Sch) (vs : List Val) :
+    2 * vs.length ≤ (vs.flatMap fun v => elem tag (encode s v)).length := by
+  induction vs with
+  | nil => simp
+  | cons v vs ih => simp only [List.flatMap_cons, List.length_append, elem_length, List.length_cons]; omega
+
+/-- `d.list_content(m)` reads back what `s.list(_, m, iter)` wrote -/
+theorem forEach_listItem (X : Ext) (s : Sch) (m : Bytes) (tag : Bytes) (more : List Ev) :
+    ∀ (vs : List Val),
+      (∀ v ∈ vs, ∀ n rest, decode X s (encode s v ++ .stop n :: rest) = .ok (v, .stop n :: rest)) →
+      ∀ (l : List Val) (fuel : Nat), (vs.flatMap fun v => elem m (encode s v)).length < fuel →
+        forEach (listItem (fun evs => decode X s evs) m) fuel
+          ((vs.flatMap fun v => elem m (encode s v)) ++ .stop tag :: more) l = .ok (l ++ vs, .stop tag :: more)
+  | [], _, l, fuel, hfuel => by
+    cases fuel with
+    | zero => simp at hfuel
+    | succ k => simp [forEach_stop]
+  | v :: vs, hdec, l, fuel, hfuel => by
+    cases fuel with
+    | zero => simp at hfuel
+    | succ k =>
+      simp only [List.flatMap_cons, elem, List.cons_append, List.append_assoc, List.nil_append] at hfuel ⊢
+      have hitem : listItem (fun evs => decode X s evs) m m
+          (encode s v ++ .stop m :: ((vs.flatMap fun v => .start m [] :: (encode s v ++ [.stop m])) ++ .stop tag :: more)) l
+          = .ok (l ++ [v], .stop m :: ((vs.flatMap fun v => .start m [] :: (encode s v ++ [.stop m])) ++ .stop tag :: more)) := by
+        simp [listItem, hdec v (by simp)]
+      rw [forEach_step _ k m [] _ _ l (l ++ [v]) hitem]
+      have ih := forEach_listItem X s m tag more vs (fun v hv => hdec v (by simp [hv])) (l ++ [v]) k
+        (by simp only [elem, List.cons_append] at *; simp only [List.length_cons, List.length_append] at hfuel; omega)
+      simp only [elem, List.cons_append] at ih
+      rw [ih]; simp
+
+/-- pushing the items of a flattened list one by one -/
+def pushAll (slot : FVal) (vs : List Val) : FVal := vs.foldl FVal.push slot
+
+theorem pushAll_absent_cons (v : Val) (vs : List Val) : pushAll .absent (v :: vs) = .many (v :: vs) := by
+  have h : ∀ (vs l : List Val), pushAll (.many l) vs = .many (l ++ vs) := by
+    intro vs
+    induction vs with
+    | nil => intro l; simp [pushAll]
+    | cons x xs ih =>
+      intro l
+      have := ih (l ++ [x])
+      simp only [pushAll, List.foldl_cons, FVal.push] at this ⊢
+      rw [this]; simp
+  simp only [pushAll, List.foldl_cons, FVal.push]
+  exact h vs [v]
+
+/-- the elements of a flattened list are read back one by one into the member's slot -/
+theorem forEach_flat (f : Bytes → List Ev → List FVal → R (List FVal)) (s : Sch) (tag : Bytes)
+    (A B : List FVal) (more : List Ev) :
+    ∀ (vs : List Val),
+      (∀ v ∈ vs, ∀ slot rest, f tag (encode s v ++ .stop tag :: rest) (A ++ slot :: B)
+          = .ok (A ++ slot.push v :: B, .stop tag :: rest)) →
+      ∀ (slot : FVal) (fuel : Nat), vs.length ≤ fuel →
+        forEach f fuel ((vs.flatMap fun v => elem tag (encode s v)) ++ more) (A ++ slot :: B)
+          = forEach f (fuel - vs.length) more (A ++ pushAll slot vs :: B)
+  | [], _, slot, fuel, _ => by simp [pushAll]
+  | v :: vs, hf, slot, fuel, hfuel => by
+    cases fuel with
+    | zero => simp at hfuel
+    | succ k =>
+      simp only [List.flatMap_cons, elem, List.cons_append, List.append_assoc, List.nil_append]
+      rw [forEach_step f k tag [] _ _ _ _ (hf v (by simp) slot _)]
+      have ih := forEach_flat f s tag A B more vs (fun v hv => hf v (by simp [hv])) (slot.push v) k
+        (by simp at hfuel; omega)
+      simp only [elem, List.cons_append] at ih
+      rw [ih]
+      simp [pushAll]
+
+
+/-! ### the `Ok(Self { … })` expression on a value that fits -/
+
+theorem emptyAcc_length : ∀ fs : Flds, fs.emptyAcc.length = fs.length
+  | .nil => rfl
+  | .cons _ _ _ _ r => by simp [Flds.emptyAcc, Flds.length, emptyAcc_length r]
+
+theorem finish_fits (X : Ext) : ∀ (fs : Flds) (fvs : List FVal), FitsFields X fs fvs → fs.finish fvs = .ok fvs
+  | .nil, [], _ => by simp [Flds.finish]
+  | .nil, _ :: _, h => by simp [FitsFields] at h
+  | .cons _ _ _ _ _, [], h => by simp [FitsFields] at h
+  | .cons t pres shape s r, fv :: fvs, h => by
+    simp only [FitsFields] at h
+    have ih := finish_fits X r fvs h.2
+    simp only [Flds.finish, ih]
+    cases fv with
+    | absent =>
+      have hp : pres = .opt := by
+        cases shape <;> simpa using h.1
+      subst hp; rfl
+    | one v => cases pres <;> rfl
+    | many vs => cases pres <;> rfl
+
+/-! ### scalars -/
+
+theorem decodeStr_escape {b : Bytes} (h : utf8Valid (escape b) = true) : decodeStr (escape b) = .ok b := by
+  simp [decodeStr, h, unescape_escape]
+
+theorem decode_scalar_ok (X : Ext) (s : Sch) {evs r : List Ev} {raw : Bytes} {v : Val}
+    (hs : isScalar s = true) (htext : textOf evs = .ok (raw, r)) (hval : decodeScalarText X s raw = .ok v) :
+    decode X s evs = .ok (v, r) := by
+  cases s <;> first
+    | (simp [isScalar] at hs; done)
+    | (rw [decode.eq_3 X _ _ (by intros; contradiction) (by intros; contradiction)]; simp [htext, hval])
+
+theorem decode_scalar_text (X : Ext) (s : Sch) (raw : Bytes) (v : Val) (n : Bytes) (rest : List Ev)
+    (hs : isScalar s = true) (hraw : decodeScalarText X s raw = .ok v) :
+    decode X s (textEv raw ++ .stop n :: rest) = .ok (v, .stop n :: rest) := by
+  by_cases hr : raw = []
+  · subst hr
+    exact decode_scalar_ok X s hs (by simp [textEv, textOf]) hraw
+  · exact decode_scalar_ok X s hs (by simp [textEv, hr, textOf]) hraw
+
+
+/-! ### the round trip -/
+
+theorem append_single_assoc (P : Flds) (tag : Bytes) (pres : Pres) (shape : Shape) (s : Sch) (Rf : Flds) :
+    (P.append (.cons tag pres shape s .nil)).append Rf = P.append (.cons tag pres shape s Rf) := by
+  rw [Flds.append_assoc]; rfl
+
+mutual
+  theorem decode_encode (X : Ext) : ∀ (s : Sch) (v : Val), s.wf = true → Fits X s v →
+      ∀ (n : Bytes) (rest : List Ev), decode X s (encode s v ++ .stop n :: rest) = .ok (v, .stop n :: rest)
+    | .str, .str b, _, hfit, n, rest => by
+      simp only [Fits] at hfit
+      simp only [encode]
+      exact decode_scalar_text X .str _ _ n rest rfl (by simp [decodeScalarText, decodeStr_escape hfit, Except.map])
+    | .enm, .str b, _, hfit, n, rest => by
+      simp only [Fits] at hfit
+      simp only [encode]
+      exact decode_scalar_text X .enm _ _ n rest rfl (by simp [decodeScalarText, decodeStr_escape hfit, Except.map])
+    | .i32, .int i, _, hfit, n, rest => by
+      simp only [Fits] at hfit
+      simp only [encode]
+      exact decode_scalar_text X .i32 _ _ n rest rfl
+        (by simp [decodeScalarText, escape_fmtInt, parseInt_fmtInt hfit.1 hfit.2])
+    | .i64, .int i, _, hfit, n, rest => by
+      simp only [Fits] at hfit
+      simp only [encode]
+      exact decode_scalar_text X .i64 _ _ n rest rfl
+        (by simp [decodeScalarText, escape_fmtInt, parseInt_fmtInt hfit.1 hfit.2])
+    | .bool, .bool b, _, _, n, rest => by
+      simp only [encode]
+      exact decode_scalar_text X .bool _ _ n rest rfl
+        (by simp [decodeScalarText, escape_fmtBool, parseBool_fmtBool])
+    | .ts f, .ts t, _, hfit, n, rest => by
+      simp only [Fits] at hfit
+      simp only [encode]
+      exact decode_scalar_text X (.ts f) _ _ n rest rfl
+        (by simp [decodeScalarText, hfit.2.2, hfit.2.1, hfit.1])
+    | .struct fs, .struct vs, hwf, hfit, n, rest => by
+      simp only [Fits] at hfit
+      simp only [Sch.wf, Bool.and_eq_true] at hwf
+      simp only [encode]
+      rw [decode.eq_1]
+      cases hnil : fs.isNil with
+      | true =>
+        cases fs with
+        | nil =>
+          cases vs with
+          | nil => simp [encodeFields]
+          | cons _ _ => simp [FitsFields] at hfit
+        | cons _ _ _ _ _ => simp [Flds.isNil] at hnil
+      | false =>
+        have hloop := fields_roundtrip X fs .nil [] vs ((encodeFields fs vs ++ .stop n :: rest).length + 1) n rest
+          (by simpa [Flds.append] using hwf.1) hwf.2 hfit rfl (by simp; omega)
+        simp only [Flds.append, List.nil_append] at hloop
+        simp only [Bool.false_eq_true, if_false, hloop, finish_fits X fs vs hfit]
+    | .union vars, .union tag v, hwf, hfit, n, rest => by
+      simp only [Fits] at hfit
+      simp only [Sch.wf, Bool.and_eq_true] at hwf
+      simp only [encode]
+      obtain ⟨inner, henc, hdec⟩ := variant_roundtrip X vars tag v hwf.2 hfit
+      rw [henc, decode.eq_2]
+      simp only [elem, List.cons_append, List.append_assoc, List.nil_append, skipText_start]
+      simp [hdec, expectEnd_stop]
+    | .str, .int _, _, h, _, _ | .str, .bool _, _, h, _, _ | .str, .ts _, _, h, _, _ | .str, .struct _, _, h, _, _
+    | .str, .union _ _, _, h, _, _ => by simp [Fits] at h
+    | .enm, .int _, _, h, _, _ | .enm, .bool _, _, h, _, _ | .enm, .ts _, _, h, _, _ | .enm, .struct _, _, h, _, _
+    | .enm, .union _ _, _, h, _, _ => by simp [Fits] at h
+    | .i32, .str _, _, h, _, _ | .i32, .bool _, _, h, _, _ | .i32, .ts _, _, h, _, _ | .i32, .struct _, _, h, _, _
+    | .i32, .union _ _, _, h, _, _ => by simp [Fits] at h
+    | .i64, .str _, _, h, _, _ | .i64, .bool _, _, h, _, _ | .i64, .ts _, _, h, _, _ | .i64, .struct _, _, h, _, _
+    | .i64, .union _ _, _, h, _, _ => by simp [Fits] at h
+    | .bool, .str _, _, h, _, _ | .bool, .int _, _, h, _, _ | .bool, .ts _, _, h, _, _ | .bool, .struct _, _, h, _, _
+    | .bool, .union _ _, _, h, _, _ => by simp [Fits] at h
+    | .ts _, .str _, _, h, _, _ | .ts _, .int _, _, h, _, _ | .ts _, .bool _, _, h, _, _ | .ts _, .struct _, _, h, _, _
+    | .ts _, .union _ _, _, h, _, _ => by simp [Fits] at h
+    | .struct _, .str _, _, h, _, _ | .struct _, .int _, _, h, _, _ | .struct _, .bool _, _, h, _, _
+    | .struct _, .ts _, _, h, _, _ | .struct _, .union _ _, _, h, _, _ => by simp [Fits] at h
+    | .union _, .str _, _, h, _, _ | .union _, .int _, _, h, _, _ | .union _, .bool _, _, h, _, _
+    | .union _, .ts _, _, h, _, _ | .union _, .struct _, _, h, _, _ => by simp [Fits] at h
+  /-- the `for_each_element` loop of a struct deserialiser over what the struct serialiser wrote, started in the
+  middle: the members `P` are done (their slots are `A`), the members `S` are still to come -/
+  theorem fields_roundtrip (X : Ext) : ∀ (S : Flds) (P : Flds) (A fvs : List FVal) (fuel : Nat) (n : Bytes)
+      (tail : List Ev), distinct (P.append S).tags = true → S.wf = true → FitsFields X S fvs →
+      A.length = P.length → (encodeFields S fvs).length < fuel →
+      forEach (fun name evs acc => decodeField X (P.append S) name evs acc) fuel
+        (encodeFields S fvs ++ .stop n :: tail) (A ++ S.emptyAcc) = .ok (A ++ fvs, .stop n :: tail)
+    | .nil, P, A, fvs, fuel, n, tail, _, _, hfit, _, hfuel => by
+      cases fvs with
+      | cons _ _ => simp [FitsFields] at hfit
+      | nil =>
+        cases fuel with
+        | zero => simp at hfuel
+        | succ k => simp [encodeFields, Flds.emptyAcc, forEach_stop]
+    | .cons tag pres shape s Rf, P, A, [], fuel, n, tail, _, _, hfit, _, _ => by simp [FitsFields] at hfit
+    | .cons tag pres shape s Rf, P, A, fv :: fvs', fuel, n, tail, hd, hwf, hfit, hl, hfuel => by
+      simp only [FitsFields] at hfit
+      simp only [Flds.wf, Bool.and_eq_true] at hwf
+      have htag : tag ∉ P.tags := by
+        rw [Flds.tags_append] at hd
+        exact distinct_append_cons (by simpa [Flds.tags] using hd)
+      -- the loop over the remaining members, with this member done
+      have hP := append_single_assoc P tag pres shape s Rf
+      have hrest : ∀ (slot : FVal) (fuel' : Nat), (encodeFields Rf fvs').length < fuel' →
+          forEach (fun name evs acc => decodeField X (P.append (.cons tag pres shape s Rf)) name evs acc) fuel'
+            (encodeFields Rf fvs' ++ .stop n :: tail) (A ++ slot :: Rf.emptyAcc)
+            = .ok (A ++ slot :: fvs', .stop n :: tail) := by
+        intro slot fuel' hf'
+        have := fields_roundtrip X Rf (P.append (.cons tag pres shape s .nil)) (A ++ [slot]) fvs' fuel' n tail
+          (by rw [hP]; exact hd) hwf.2 hfit.2 (by simp [Flds.length_append, Flds.length, hl]) hf'
+        rw [hP] at this
+        simpa using this
+      rw [encodeFields_cons] at hfuel ⊢
+      simp only [Flds.emptyAcc, List.append_assoc]
+      cases fv with
+      | absent =>
+        have : encField tag shape s .absent = [] := by cases shape <;> rfl
+        rw [this] at hfuel ⊢
+        exact hrest .absent fuel (by simpa using hfuel)
+      | one v =>
+        cases shape with
+        | single =>
+          have hv : Fits X s v := by simpa using hfit.1
+          cases fuel with
+          | zero => simp at hfuel
+          | succ k =>
+            simp only [encField, elem, List.cons_append, List.append_assoc, List.nil_append] at hfuel ⊢
+            rw [forEach_step _ k tag [] _ _ _ _
+              (decodeField_at X P A htag hl (decodeField_single_ok X (decode_encode X s v hwf.1 hv tag _)))]
+            exact hrest (.one v) k (by simp at hfuel; omega)
+        | wrapped m => simp at hfit
+        | flat => simp at hfit
+      | many vs =>
+        cases shape with
+        | single => simp at hfit
+        | wrapped m =>
+          have hv : ∀ v ∈ vs, Fits X s v := by simpa using hfit.1
+          cases fuel with
+          | zero => simp at hfuel
+          | succ k =>
+            simp only [encField, elem, List.cons_append, List.append_assoc, List.nil_append] at hfuel ⊢
+            have hlist := forEach_listItem X s m tag (encodeFields Rf fvs' ++ .stop n :: tail) vs
+              (fun v hvm n' rest' => decode_encode X s v hwf.1 (hv v hvm) n' rest') []
+              (((vs.flatMap fun v => elem m (encode s v)) ++ .stop tag :: (encodeFields Rf fvs' ++ .stop n :: tail)).length + 1)
+              (by simp; omega)
+            simp only [elem, List.cons_append, List.nil_append] at hlist
+            rw [forEach_step _ k tag [] _ _ _ _
+              (decodeField_at X P A htag hl (decodeField_wrapped_ok X hlist))]
+            exact hrest (.many vs) k (by simp at hfuel; omega)
+        | flat =>
+          have hne : vs ≠ [] := by
+            have := hfit.1; simp at this; exact this.1
+          have hv : ∀ v ∈ vs, Fits X s v := by
+            have := hfit.1; simp at this; exact this.2
+          simp only [encField] at hfuel ⊢
+          have h2 := flatMap_elem_length tag s vs
+          rw [forEach_flat _ s tag A Rf.emptyAcc _ vs
+            (fun v hvm slot rest' =>
+              decodeField_at X P A htag hl (decodeField_flat_ok X (decode_encode X s v hwf.1 (hv v hvm) tag rest')))
+            .absent fuel (by simp only [List.length_append] at hfuel; omega)]
+          cases vs with
+          | nil => exact absurd rfl hne
+          | cons v0 vs0 =>
+            rw [pushAll_absent_cons]
+            exact hrest _ _ (by simp only [List.length_append] at hfuel; omega)
+  /-- the variant a union value was written as is the variant it is read as -/
+  theorem variant_roundtrip (X : Ext) : ∀ (vars : Vars) (tag : Bytes) (v : Val), vars.wf = true →
+      FitsVariant X vars tag v →
+      ∃ inner, encodeVariant vars tag v = elem tag inner ∧
+        ∀ more, decodeVariant X vars tag (inner ++ .stop tag :: more) = .ok (.union tag v, .stop tag :: more)
+    | .nil, _, _, _, hfit => by simp [FitsVariant] at hfit
+    | .cons t s rest, tag, v, hwf, hfit => by
+      simp only [Vars.wf, Bool.and_eq_true] at hwf
+      simp only [FitsVariant] at hfit
+      by_cases h : t = tag
+      · subst h
+        simp only [if_true] at hfit
+        refine ⟨encode s v, by simp [encodeVariant], ?_⟩
+        intro more
+        simp [decodeVariant, decode_encode X s v hwf.1 hfit t more]
+      · simp only [if_neg h] at hfit
+        obtain ⟨inner, henc, hdec⟩ := variant_roundtrip X rest tag v hwf.2 hfit
+        refine ⟨inner, by simp [encodeVariant, h, henc], ?_⟩
+        intro more
+        have h' : tag ≠ t := fun e => h e.symm
+        simp [decodeVariant, h', hdec more]
+end
+
+
+/-! ### documents -/
+
+theorem expectEof_nil : expectEof [] = .ok () := by simp [expectEof, skipText]
+
+/-- `T::deserialize` + `expect_eof` reads back what `T::serialize` wrote (generated roots) -/
+theorem decodeDoc_encodeDoc_named (X : Ext) (tag : Bytes) (ns : Option Bytes) (s : Sch) (v : Val)
+    (hwf : s.wf = true) (hfit : Fits X s v) :
+    decodeDoc X (.named tag) s (encodeDoc (.named tag ns) s v) = .ok v := by
+  simp only [decodeDoc, encodeDoc, List.cons_append, expectStart_start]
+  simp [decode_encode X s v hwf hfit tag [], expectEnd_stop, expectEof_nil]
+
+/-- the two-level wrapper of `AssumeRoleOutput` (xml/mod.rs) -/
+theorem decodeDoc_encodeDoc_nested (X : Ext) (outer inner : Bytes) (ns : Option Bytes) (s : Sch) (v : Val)
+    (hwf : s.wf = true) (hfit : Fits X s v) :
+    decodeDoc X (.nested outer inner) s (encodeDoc (.nested outer inner ns) s v) = .ok v := by
+  simp only [decodeDoc, encodeDoc, elem, List.cons_append, List.append_assoc, List.nil_append, expectStart_start]
+  simp [decode_encode X s v hwf hfit inner [.stop outer], expectEnd_stop, expectEof_nil]
+
+/-! ### the serialiser never looks at what distinguishes `dflt` from `req` -/
+
+mutual
+  theorem encode_serView : ∀ (s : Sch) (v : Val), encode s.serView v = encode s v
+    | .struct fs, .struct vs => by simp [Sch.serView, encode, encodeFields_serView fs vs]
+    | .union vars, .union tag v => by simp [Sch.serView, encode, encodeVariant_serView vars tag v]
+    | .str, _ | .enm, _ | .i32, _ | .i64, _ | .bool, _ | .ts _, _ => by simp [Sch.serView]
+    | .struct _, .str _ | .struct _, .int _ | .struct _, .bool _ | .struct _, .ts _ | .struct _, .union _ _ => by
+      simp [Sch.serView, encode]
+    | .union _, .str _ | .union _, .int _ | .union _, .bool _ | .union _, .ts _ | .union _, .struct _ => by
+      simp [Sch.serView, encode]
+  theorem encodeFields_serView : ∀ (fs : Flds) (vs : List FVal), encodeFields fs.serView vs = encodeFields fs vs
+    | .nil, _ => by simp [Flds.serView, encodeFields]
+    | .cons t p sh s r, [] => by simp [Flds.serView, encodeFields]
+    | .cons t p sh s r, fv :: fvs => by
+      simp only [Flds.serView]
+      rw [encodeFields_cons, encodeFields_cons, encodeFields_serView r fvs]
+      congr 1
+      cases sh <;> cases fv <;> simp [encField, encode_serView s]
+  theorem encodeVariant_serView : ∀ (vars : Vars) (tag : Bytes) (v : Val),
+      encodeVariant vars.serView tag v = encodeVariant vars tag v
+    | .nil, _, _ => by simp [Vars.serView, encodeVariant]
+    | .cons t s r, tag, v => by
+      simp [Vars.serView, encodeVariant, encode_serView s v, encodeVariant_serView r tag v]
+end
+
 end S3V.Xml
